@@ -206,6 +206,7 @@ func runC18(r *mon.Run, replay string) {
 	timed("syncstalls", func() { phaseSyncStalls(r) })
 	timed("syncclose", func() { phaseSyncClose(r) })
 	timed("appdial", func() { phaseAppDial(r) })
+	timed("outbound", func() { phaseOutboundClose(r) })
 	join := startDeadlockScenarios(r)
 	timed("rhp", func() { phaseRHP(r) })
 	timed("rhpstalls", func() { phaseRHPStalls(r) })
@@ -223,6 +224,10 @@ func runC18(r *mon.Run, replay string) {
 	r.Floor("longwait.rpcs_served_after_waiting_longer_than_rpc_timeout", 4)
 	r.Floor("appdial.closes_with_application_dial_in_flight", 6)
 	r.Floor("appdial.closes_with_peer_loop_dial_in_flight", 2)
+	r.Floor("outbound.closes_never-run", 3)
+	r.Floor("outbound.closes_run-failed", 3)
+	r.Floor("outbound.closes_listener-closed", 3)
+	r.Floor("outbound.closes_late-handshake", 2)
 	r.Floor("pinseq.ops", 200)
 	r.Floor("pinseq.handlers_released_individually", 60)
 	r.Floor("pinseq.leave_with_others_running", 20)
@@ -315,6 +320,10 @@ func runReplay(r *mon.Run, path string) {
 			var c SharedAddrCase
 			json.Unmarshal(h.Case, &c)
 			runSharedAddrCase(r, c)
+		case "outbound-close":
+			var c OutboundCloseCase
+			json.Unmarshal(h.Case, &c)
+			runOutboundCloseCase(r, c)
 		case "app-dial":
 			var c AppDialCase
 			json.Unmarshal(h.Case, &c)
